@@ -1694,7 +1694,7 @@ func reposInfoHandler(w http.ResponseWriter, r *http.Request) {
 		return
 	}
 	w.Header().Set("Content-Type", "application/json")
-	fmt.Fprintf(w, string(jsonBytes))
+	fmt.Fprint(w, string(jsonBytes))
 }
 
 // TODO -- Maybe allow assignment of child UUID via JSON in POST.  Right now, we only
@@ -1775,7 +1775,7 @@ func repoInfoHandler(c web.C, w http.ResponseWriter, r *http.Request) {
 		return
 	}
 	w.Header().Set("Content-Type", "application/json")
-	fmt.Fprintf(w, jsonStr)
+	fmt.Fprint(w, jsonStr)
 }
 
 func repoPostInfoHandler(c web.C, w http.ResponseWriter, r *http.Request) {
@@ -1831,7 +1831,7 @@ func repoBranchVersionsHandler(c web.C, w http.ResponseWriter, r *http.Request) 
 		return
 	}
 	w.Header().Set("Content-Type", "application/json")
-	fmt.Fprintf(w, jsonStr)
+	fmt.Fprint(w, jsonStr)
 }
 
 func repoNewDataHandler(c web.C, w http.ResponseWriter, r *http.Request) {
@@ -1909,7 +1909,7 @@ func getRepoLogHandler(c web.C, w http.ResponseWriter, r *http.Request) {
 		BadRequest(w, r, err)
 		return
 	}
-	fmt.Fprintf(w, string(jsonStr))
+	fmt.Fprint(w, string(jsonStr))
 }
 
 func postRepoLogHandler(c web.C, w http.ResponseWriter, r *http.Request) {
@@ -1947,7 +1947,7 @@ func getNodeNoteHandler(c web.C, w http.ResponseWriter, r *http.Request) {
 		BadRequest(w, r, err)
 		return
 	}
-	fmt.Fprintf(w, string(jsonStr))
+	fmt.Fprint(w, string(jsonStr))
 }
 
 func getNodeLogHandler(c web.C, w http.ResponseWriter, r *http.Request) {
@@ -1967,7 +1967,7 @@ func getNodeLogHandler(c web.C, w http.ResponseWriter, r *http.Request) {
 		BadRequest(w, r, err)
 		return
 	}
-	fmt.Fprintf(w, string(jsonStr))
+	fmt.Fprint(w, string(jsonStr))
 }
 
 func postNodeNoteHandler(c web.C, w http.ResponseWriter, r *http.Request) {
